@@ -76,7 +76,7 @@ class C11(Property):
     ]
 
     def budget(self, tier):
-        return {"examples": 3000 if tier == "quick" else 150000, "shards": 10 if tier == "quick" else 16}
+        return {"examples": 8000 if tier == "quick" else 150000, "shards": 16}
 
     def strategy(self, tier):
         return specs()
